@@ -146,8 +146,11 @@ class BaseKey(t.Generic[NativePrivateKey, NativePublicKey], metaclass=ABCMeta):
             data.update(self.extra_parameters)  # type: ignore
         data["kty"] = self.key_type
         self.validate_dict_key(data)
-        self._dict_value = data
-        return data
+        # fill the dict created in __init__ in place instead of replacing it:
+        # a key may be shared between threads, and replacing the dict here
+        # would drop a "kid" that ensure_kid added to it in the meantime
+        self._dict_value.update(data)
+        return self._dict_value
 
     @property
     def public_key(self) -> NativePublicKey:
@@ -182,7 +185,8 @@ class BaseKey(t.Generic[NativePrivateKey, NativePublicKey], metaclass=ABCMeta):
             return data
 
         # clear private fields
-        for k in self.dict_value:
+        # iterate over the copy: the shared dict may get its "kid" meanwhile
+        for k in list(data):
             if k in self.value_registry and self.value_registry[k].private:
                 del data[k]
 
